@@ -270,7 +270,20 @@ func TestMerge(t *testing.T) {
 		} else {
 			os.Args = saved[:1]
 		}
+		// environment variables spelled like the keys must not matter
+		var envs []string
+		for _, p := range schema {
+			for _, name := range []string{strings.ToUpper(strings.ReplaceAll(p, ".", "_")), strings.ToUpper(strings.Split(p, ".")[0])} {
+				if _, exists := os.LookupEnv(name); !exists {
+					os.Setenv(name, "from-environment")
+					envs = append(envs, name)
+				}
+			}
+		}
 		out := kit.RunApp(ops...)
+		for _, name := range envs {
+			os.Unsetenv(name)
+		}
 		os.Args = saved
 		var ss []string
 		for _, s := range srcs {
@@ -516,5 +529,47 @@ func TestReinitialize(t *testing.T) {
 			}
 		}
 		kit.Rec.Case(desc, true, "reinitialize")
+	})
+}
+
+
+// TestSharedLoaderList: one loader list (a file in the middle) handed to two containers through
+// SetConfigLoader: the first container must not disturb what the second one loads.
+func TestSharedLoaderList(t *testing.T) {
+	kit.Rec.Rule(rule)
+	rapid.Check(t, func(t *rapid.T) {
+		dir, err := os.MkdirTemp("", "c15s-")
+		if err != nil {
+			t.Skip("no temp dir")
+		}
+		defer os.RemoveAll(dir)
+		n := rapid.IntRange(2, 5).Draw(t, "n")
+		filePos := rapid.IntRange(0, n-1).Draw(t, "filepos")
+		want := map[string]int{}
+		var list []configure.Loader
+		for i := 0; i < n; i++ {
+			key := fmt.Sprintf("only%d", i)
+			want[key] = 10 + i
+			doc := []byte(fmt.Sprintf("c15s:\n  %s: %d\n  shared: %d\n", key, 10+i, i))
+			if i == filePos {
+				p := filepath.Join(dir, "f.yaml")
+				_ = os.WriteFile(p, doc, 0o644)
+				list = append(list, loader.NewFileLoader(p))
+			} else {
+				list = append(list, loader.NewRawLoader(doc))
+			}
+		}
+		for round := 1; round <= 2; round++ {
+			out := kit.RunApp(app.SetConfigLoader(list...))
+			if !out.OK() {
+				t.Fatalf("C15: container %d failed: %v", round, out)
+			}
+			for k, v := range want {
+				if got := out.App.Get("c15s." + k); !reflect.DeepEqual(canon(got), canon(v)) {
+					t.Fatalf("C15: container %d built from the same loader list (file at position %d of %d): key %q = %v, want %d (a source was lost)", round, filePos, n, k, got, v)
+				}
+			}
+		}
+		kit.Rec.Case(fmt.Sprintf("shared list n=%d filepos=%d", n, filePos), true, "shared-loader-list")
 	})
 }
